@@ -278,6 +278,14 @@ func c18Requests(thorough bool) map[string][]rreq {
 			}
 		}
 	}
+	// the right code with white space around it is NOT the code: the verdict must be the library's (false)
+	for _, deco := range []func(string) string{func(c string) string { return " " + c }, func(c string) string { return c + "\n" }, func(c string) string { return c + "\u00a0" }, func(c string) string { return "\t" + c + " " }, func(c string) string { return c[:len(c)-1] + " " }} {
+		for _, d := range []string{"6", "8", "10"} {
+			dn := refDigits(d)
+			hv = append(hv, rreq{Method: "POST", Path: "/hotp/validate", Fields: map[string]any{"secret": u, "code": deco(ref.HOTP(restKey, 7, dn, 0)), "counter": 7, "digits": d, "skew": 1}})
+			tv = append(tv, rreq{Method: "POST", Path: "/totp/validate", Fields: map[string]any{"secret": u, "code": deco(ref.HOTP(restKey, ref.Step(59, 30), dn, 0)), "timestamp": 59, "digits": d, "skew": 1}})
+		}
+	}
 	for _, code := range []any{"000000", "12345", "1234567", " ", nil, "１２３４５６"} {
 		for _, s := range secretSpellings() {
 			f := map[string]any{"counter": 1, "timestamp": 59}
@@ -311,6 +319,10 @@ func c18Requests(thorough bool) map[string][]rreq {
 			code := ref.OCRA(restKey, rs, rin.ref())
 			ov = append(ov, rreq{Method: "POST", Path: "/ocra/validate", Fields: map[string]any{"secret": u, "raw_suite": n, "input": in, "code": code}})
 			ov = append(ov, rreq{Method: "POST", Path: "/ocra/validate", Fields: map[string]any{"secret": u, "raw_suite": n, "input": in, "code": ref.Format(1, sh.Digits)}})
+			if k == 0 {
+				ov = append(ov, rreq{Method: "POST", Path: "/ocra/validate", Fields: map[string]any{"secret": u, "raw_suite": n, "input": in, "code": " " + code}},
+					rreq{Method: "POST", Path: "/ocra/validate", Fields: map[string]any{"secret": u, "raw_suite": n, "input": in, "code": code + "\n"}})
+			}
 		}
 	}
 	for i, sh0 := range usableShapes([]int{60}) {
@@ -772,7 +784,7 @@ func carryOver() []rreq {
 	post := func(path string, f map[string]any) rreq { return rreq{Method: "POST", Path: path, Fields: f} }
 	long, short := longShape(), shape{Hash: 0, Digits: 6, Q: true, QF: 1}
 	long.Text = ""
-	return []rreq{
+	out := []rreq{
 		post("/hotp/validate", map[string]any{"secret": u, "code": ref.HOTP(restKey, 5, 8, 2), "counter": 5, "skew": 10, "digits": "8", "algorithm": "SHA512"}),
 		post("/hotp/validate", map[string]any{"secret": u, "code": ref.HOTP(restKey, 7, 6, 0)}),               // counter omitted (0), skew omitted (0): distance 7 => false
 		post("/hotp/validate", map[string]any{"secret": u, "code": ref.HOTP(restKey, 7, 6, 0), "counter": 5}), // skew omitted: distance 2 => false
@@ -797,4 +809,49 @@ func carryOver() []rreq {
 		{Method: "GET", Path: "/otp/secret", Query: "algorithm=SHA512"},
 		{Method: "GET", Path: "/otp/secret"},
 	}
+	return append(out, partialRequests()...)
+}
+
+// partialRequests: for the four HOTP/TOTP endpoints every subset of the optional fields set
+// to a non-default value (a request that gives period and skew but neither digits nor hash, ...).
+func partialRequests() []rreq {
+	u := ref.B32Encode(restKey)
+	var out []rreq
+	opt := []struct {
+		k string
+		v any
+	}{{"digits", "8"}, {"algorithm", "SHA512"}, {"period", 60}, {"skew", 1}}
+	for m := 1; m < 15; m++ { // 0 and 15 are the minimal and maximal requests above
+		f := map[string]any{}
+		d, a, per := 6, 0, uint64(30)
+		for i, o := range opt {
+			if m>>uint(i)&1 == 1 {
+				f[o.k] = o.v
+				switch o.k {
+				case "digits":
+					d = 8
+				case "algorithm":
+					a = 2
+				case "period":
+					per = 60
+				}
+			}
+		}
+		cp := func(extra map[string]any) map[string]any {
+			g := map[string]any{"secret": u}
+			for k, v := range f {
+				g[k] = v
+			}
+			for k, v := range extra {
+				g[k] = v
+			}
+			return g
+		}
+		out = append(out,
+			rreq{Method: "POST", Path: "/totp/validate", Fields: cp(map[string]any{"timestamp": 1111111109, "code": ref.HOTP(restKey, ref.Step(1111111109, per)+1, d, a)})},
+			rreq{Method: "POST", Path: "/totp/generate", Fields: cp(map[string]any{"timestamp": 1111111109})},
+			rreq{Method: "POST", Path: "/hotp/validate", Fields: cp(map[string]any{"counter": 5, "code": ref.HOTP(restKey, 6, d, a)})},
+			rreq{Method: "POST", Path: "/hotp/generate", Fields: cp(map[string]any{"counter": 5})})
+	}
+	return out
 }
